@@ -23,7 +23,7 @@ RULE = (
     "on the leaves. non-trivial = some binary node has operands differing in name set or "
     "shape AND some polynomial leaf has >= 2 terms; distinct = hash of the case JSON."
 )
-LEVEL_TEXT += (" Operand exponents are stretched by 23/35/70 in three of eight cases, so products and powers also take the large-exponent code path.")
+LEVEL_TEXT += (" Operand exponents are stretched by 23/35/70 in three of eight cases, so products and powers also take the large-exponent code path. One case in twelve raises a narrow-integer (int8/uint8/int16/int32) base to an int64 array of exponents 0-5.")
 ASSUMPTIONS = [
     "exact model (pbt/model.py) cross-checked against sympy by pbt.selftest",
     "dyadic float/complex coefficients: float arithmetic on them is exact, so values are compared exactly",
@@ -53,6 +53,18 @@ def exponent_desc(draw, base_shape, target):
 def tree_case(draw):
     target = draw(gen.shape_st(3))
     base_names = draw(gen.names_st())
+    if draw(st.integers(0, 11)) == 0:
+        # an integer base stored in a narrow type raised to an (int64) array of exponents: numpy's promoted type
+        # holds every exact power here, so the result is the exact power
+        d = draw(gen.poly_desc(names=base_names, shape=tuple(target), kind="i", max_terms=3, max_exp=2, min_terms=1))
+        d["dtype"] = draw(st.sampled_from(["int8", "uint8", "int16", "int32"]))
+        for t in d["terms"]:
+            t[1] = [(abs(int(c)) if d["dtype"] == "uint8" else int(c)) for c in t[1]]
+        shp = gen.broadcast_member(draw, target) or (1,)  # (a 0-d list would be a plain Python number: weak promotion)
+        size = gen.size_of(shp)
+        vals = draw(st.lists(st.integers(0, 5), min_size=size, max_size=size))
+        return {"leaves": [d], "tree": ["pow", ["leaf", 0], {"shape": list(shp), "values": vals,
+                                                            "how": draw(st.sampled_from(["array", "list"]))}]}
     kinds = draw(st.sampled_from(["i", "i", "f", "c", "if", "ifc"]))
     nleaves = draw(st.integers(2, 4))
     leaves = []
